@@ -268,18 +268,31 @@ def ob_cli():
 
     from pyrefact import pattern_matching as pm
 
+    import pathlib
+
     bad = []
     n = 0
+    sources = ["x = 1\ny = 2\nx = 1\n", "if c:\n    f(1)\n    f(2)\n"] + [LAYOUTS[k] for k in sorted(LAYOUTS)]
     with tempfile.TemporaryDirectory() as d:
-        for i, src in enumerate(["x = 1\ny = 2\nx = 1\n", "if c:\n    f(1)\n    f(2)\n"]):
+        for i, src in enumerate(sources):
             path = os.path.join(d, "m%d.py" % i)
-            with open(path, "w") as f:
+            with open(path, "w", encoding="utf-8", newline="") as f:
                 f.write(src)
-            for pat in ("x = 1", "f({{a}})"):
+            text = pathlib.Path(path).read_text()  # what the command reads (universal newlines)
+            ls = L.py_lines(text)
+            for pat in ("x = 1", "f({{a}})", "{{t}} = {{v}}"):
                 out = io.StringIO()
                 with contextlib.redirect_stdout(out):
                     pm.main(["find", pat, path])
-                want = ["%s:%d:%d: %s" % (path, m.lineno, m.col_offset, m.string.splitlines()[0]) for m in pm.finditer(pat, src)]
+                want = []
+                for m in pm.finditer(pat, text):
+                    # location of the span start under the independent line model
+                    loc = None
+                    for k, (st, en, _t) in enumerate(ls):
+                        hi = en if k + 1 < len(ls) else len(text) + 1
+                        if st <= m.start < hi:
+                            loc = (k + 1, m.start - st)
+                    want.append("%s:%d:%d: %s" % (path, loc[0], loc[1], m.string.splitlines()[0]))
                 n += 1
                 if out.getvalue().splitlines() != want:
                     bad.append((pat, src, out.getvalue(), want))
